@@ -25,6 +25,9 @@ claimed = {
  "C08": dict(level="exploration", technique="property-based testing (rapid), model-based: generated source sets x prior contents x history-size x lines x accept variants through real Readline calls; per-source list model",
    text="For every generated combination the contents of every bound source (library in-memory, library file-backed, harness recording source) are read through the Source API before the call and after each return and compared with a per-source list model (append-once / skip rules of the statement).",
    note=RIG_NOTE, ref="DESIGN.md §3 C08"),
+ "C09": dict(level="exploration", technique="property-based testing (rapid), model-based (stateful): generated histories x in-progress buffers x navigation / search sequences; set-valued walk index model + validity predicates for searches + source comparison",
+   text="Sequences of history navigation, prefix/substring search and incremental search sessions are run one command per read; a set-valued index model predicts what the walk commands may show, validity predicates constrain what searches may put in the buffer, and the bound source is compared with its prior contents afterwards.",
+   note=RIG_NOTE + " One known finding (cancelled incremental search from an empty line) reported by signature.", ref="DESIGN.md §3 C09"),
  "C10": dict(level="fault_enumeration", technique="property-based testing (rapid) of generated histories + exhaustive enumeration of every truncation offset of the last append (crash points); list-model oracle; native fuzzing of file contents in the thorough tier",
    text="For each generated history every byte offset of the last record is used as a crash point (exhaustively for records up to 600 bytes, first/last 96 bytes plus spread offsets beyond): reopen must succeed, keep the completed entries in order, and a later append must be durable. The histories themselves are sampled, the crash points per history are enumerated: fault enumeration.",
    note="Models a process death as a prefix of the single O_APPEND write; no claims about kernel or disk failure. API-only (NewHistoryFromFile, Write, Len, GetLine).", ref="DESIGN.md §3 C10"),
